@@ -606,6 +606,12 @@ func (e *Effects) callResult(c *ssa.Call, idx int) RootSet {
 		}
 		if ai, ok := externalKeeps[name]; ok && ai < len(com.Args) {
 			out.add(Root{Kind: rkFresh, Site: c})
+			if name == "bytes.NewBuffer" {
+				// a Buffer WRITES into the spare capacity of the slice it was given (Write, WriteByte, Grow+Write,
+				// binary.Write(buf, …)): whatever is written through the buffer may land in the argument's array
+				// (C05-agent5-m1: String() assembled in bytes.NewBuffer(k.version) overwrote the parent key's fields)
+				out.addAll(e.Src(com.Args[ai]))
+			}
 			return out
 		}
 	}
